@@ -1301,10 +1301,24 @@ pub fn judge_state(
     out.extend(j01(&s.arena, &s.obs));
     out.extend(j02(&s.obs));
     let structurally_bad = !out.is_empty();
-    if !structurally_bad {
+    // lenient mode: link inconsistencies (no cycles) do not stop the history-based judges
+    let only_linkish = out.iter().all(is_linkish);
+    if !structurally_bad || (cfg.lenient_links && only_linkish) {
         out.extend(drain(s, cfg.retire_min));
     }
     if structurally_bad {
+        if cfg.lenient_links && only_linkish {
+            let t = cfg.target;
+            if t & C06 != 0 {
+                out.extend(c06(s));
+            }
+            if t & C08 != 0 && cfg.ledger {
+                out.extend(c08_final_drop(s));
+            }
+            if t & C11 != 0 {
+                out.extend(c11(s));
+            }
+        }
         return out;
     }
     let t = cfg.target;
